@@ -55,6 +55,7 @@ def scalarEq : Ty → Ty → Bool
   | .array l a, .array l' b => l == l' && decide (1 ≤ l) && decide (l ≤ 100000000) && scalarEq a b
   | .func as r, .func bs r' => scalarEqs as bs && scalarEq r r'
   | .vec a, .vec b => scalarEq a b
+  | .dyn a, .dyn b => a == b
   | _, _ => false
 def scalarEqs : List Ty → List Ty → Bool
   | [], [] => true
@@ -73,6 +74,7 @@ def flatTy : Ty → Bool
   | .array len e => decide (1 ≤ len) && decide (len ≤ 100000000) && flatTy e
   | .func ps r => flatTys ps && flatTy r
   | .vec e => flatTy e
+  | .dyn _ => true
   | t => scalarTy t
 def flatTys : List Ty → Bool
   | [] => true
@@ -90,6 +92,7 @@ def valTyS (S E : List String) : Ty → Bool
   | .array len e => decide (1 ≤ len) && decide (len ≤ 100000000) && valTyS S E e
   | .func ps r => valTysS S E ps && valTyS S E r
   | .vec e => valTyS S E e
+  | .dyn _ => true
   | t => scalarTy t
 def valTysS (S E : List String) : List Ty → Bool
   | [] => true
@@ -431,6 +434,77 @@ def localCallOK (env : Env) (file : AFile) (G : List String) (Γ : Ctx) (f : Imm
      | _ => false)
   | _ => false
 
+/-! ### trait objects
+
+`G` is a list of function names **plus an optional flag**: when it contains `dynMarker`, trait objects are admitted — then
+`Sem`'s dynamic dispatch consults the implementation table `P.impls` of the program, about which `closedOK` cannot know, and
+the theorems carry the hypothesis `implsOK` on `P` (decidable; the harness checks it on every real program).  Without the
+flag the table of admissible vtables is empty, no `EToDyn` is in the fragment, no trait-object value is ever related, and the
+theorems need no hypothesis on `P.impls`. -/
+
+/-- the flag in `G` that admits trait objects -/
+def dynMarker : String := "<dyn>"
+
+/-- receiver types whose recovery from `any` in a wrapper (`self.(T)` / `T(self)`) is the identity in `Go.Sem`: admitted
+    struct types (the assertion compares the struct's name), unit, bool, string, and the integer types (an integer of the
+    fragment is in range: `HasTy`) -/
+def dynRecvTy (env : Env) : Ty → Bool
+  | .struct n => (goodStructs env).contains n
+  | .unit | .bool | .string => true
+  | .int _ _ => true
+  | _ => false
+
+/-- one vtable `(trait, receiver type)` is admissible: the file converts to it (so `go_file` emits its constructor and
+    wrappers), the trait is known, its Go slot names are pairwise distinct, every method has value types and is implemented
+    by a function of `G` of exactly that signature whose Go name the wrapper's own parameters do not capture -/
+def dynEntryOK (env : Env) (file : AFile) (G : List String) (tr : String) (forTy : Ty) : Bool :=
+  dynRecvTy env forTy && valTy env forTy &&
+  (collectDynRequirements file).vtables.any (fun p => p.1 == tr && Goml.Mono.tyBeq p.2 forTy) &&
+  (match traitMethodSigs env tr with
+   | some sigs =>
+     decide ((sigs.map fun s => gid s.1).Nodup) &&
+     sigs.all fun s =>
+       let impl := Goml.Mono.traitImplFnName tr forTy s.1
+       s.2.1.all (valTy env) && valTy env s.2.2 && rn impl == impl && !isEntry impl &&
+       decide (("self" :: (wrapParams 0 s.2.1).map (·.1)).Nodup) &&
+       !("self" :: (wrapParams 0 s.2.1).map (·.1)).contains (gid impl) &&
+       (match file.find? (·.name == impl) with
+        | some g => G.contains impl && scalarEqs (g.params.map (·.2)) (forTy :: s.2.1) && scalarEq g.ret s.2.2
+        | none => false)
+   | none => false)
+
+/-- the admissible vtables (none unless `G` carries the flag) -/
+def dynTable (env : Env) (file : AFile) (G : List String) : List (String × Ty) :=
+  if G.contains dynMarker then (collectDynRequirements file).vtables.filter fun p => dynEntryOK env file G p.1 p.2 else []
+
+/-- the method `m` of trait `tr` -/
+def dynSig (env : Env) (tr m : String) : Option (String × List Ty × Ty) :=
+  ((traitMethodSigs env tr).getD []).find? (·.1 == m)
+
+/-- the emitted file declares the two structs of a known trait with exactly the fields the back end writes -/
+def dynStructTableOK (env : Env) (F : GFile) (tr : String) : Bool :=
+  match traitMethodSigs env tr with
+  | some sigs =>
+    (match F.structFields (dynStructName tr) with
+     | some decl => decl.map (·.1) == ["data", "vtable"]
+     | none => false) &&
+    (match F.structFields (dynVtableStructName tr) with
+     | some decl => decl.map (·.1) == sigs.map fun s => gid s.1
+     | none => false)
+  | none => true
+
+/-- `dyn[tr](e)` at receiver type `forTy` -/
+def toDynOK (env : Env) (file : AFile) (G : List String) (Γ : Ctx) (tr : String) (forTy : Ty) (e : Imm) (ty : Ty) : Bool :=
+  immOK env file G Γ e && scalarEq e.ty forTy && scalarEq ty (.dyn tr) &&
+  (dynTable env file G).any (fun p => p.1 == tr && Goml.Mono.tyBeq p.2 forTy)
+
+/-- a method call on a trait object -/
+def dynCallOK (env : Env) (file : AFile) (G : List String) (Γ : Ctx) (tr m : String) (recv : Imm) (args : List Imm) (ty : Ty) : Bool :=
+  immOK env file G Γ recv && scalarEq recv.ty (.dyn tr) &&
+  (match dynSig env tr m with
+   | some s => argsOK env file G Γ args s.2.1 && scalarEq ty s.2.2
+   | none => false)
+
 /-- the name of the `apply` function of the closure-environment struct `n` (what `Sem.apply` of a struct value calls) -/
 def applyFnName (n : String) : String := "inherent#" ++ n ++ "#" ++ n ++ "#apply"
 
@@ -539,7 +613,8 @@ def fragC (env : Env) (file : AFile) (G : List String) (Γ : Ctx) (K : KCtx) : C
        if arms.isEmpty then isSomeD d && fragD env file G Γ K ty d else fragFirst env file G Γ K ty arms
      | sty => switchTy sty && fragArms env file G Γ K (.valK sty) ty arms && fragD env file G Γ K ty d)
   | .go e ty => goOK env file G Γ e ty
-  | _ => false
+  | .toDyn tr forTy e ty => toDynOK env file G Γ tr forTy e ty
+  | .dynCall tr m recv args ty => dynCallOK env file G Γ tr m recv args ty
 /-- an `AExpr` of the fragment; its value has type `aTy e` -/
 def fragA (env : Env) (file : AFile) (G : List String) (Γ : Ctx) (K : KCtx) : AExpr → Bool
   | .ret c => fragC env file G Γ K c
@@ -594,6 +669,7 @@ def calleesC (bs : List String) : CExpr → List String
   | .while c b _ => calleesA bs c ++ calleesA bs b
   | .matchE _ arms d _ => calleesArms bs arms ++ calleesD bs d
   | .go e _ => (match e.ty with | .struct n => [vn (applyFnName n)] | _ => [])
+  | .toDyn tr forTy _ _ => [dynVtableCtorName tr forTy]
   | _ => []
 def calleesA (bs : List String) : AExpr → List String
   | .ret c => calleesC bs c
@@ -792,12 +868,17 @@ def fileOK (env : Env) (file : AFile) (n : Nat) : Bool :=
     !vecNames.contains f.name) &&
   reservedGoNames.all (fun r => (F.findFunc r).isNone) &&
   structsClosed env && (goodStructs env).all (structTableOK env F) && (goodEnums env).all (enumTableOK env F) &&
-  (collectRuntimeTypes file).refs.all (refTableOK env F) && (collectRuntimeTypes file).tuples.all (tupleTableOK env F)
+  (collectRuntimeTypes file).refs.all (refTableOK env F) && (collectRuntimeTypes file).tuples.all (tupleTableOK env F) &&
+  ((collectDynRequirements file).traits ++ (collectDynRequirements file).vtables.map (·.1)).all (dynStructTableOK env F)
 
 /-- `G` is closed: the file-level conditions hold and every member passes the local checks with
     all its callees in `G` -/
-def closedOK (env : Env) (file : AFile) (n : Nat) (G : List String) : Bool :=
+def closedOKD (env : Env) (file : AFile) (n : Nat) (G : List String) : Bool :=
   fileOK env file n && checkFns env file G { n := n, ok := true } file
+
+/-- `G` is closed and does not carry the trait-object flag: nothing about `P.impls` is needed -/
+def closedOK (env : Env) (file : AFile) (n : Nat) (G : List String) : Bool :=
+  closedOKD env file n G && !G.contains dynMarker
 
 /-- candidate set: iterate "drop the functions that fail the local check" to a fixed point -/
 def refine (env : Env) (file : AFile) (n : Nat) : Nat → List String → List String
@@ -807,12 +888,31 @@ def refine (env : Env) (file : AFile) (n : Nat) : Nat → List String → List S
       | [] => []
       | f :: rest =>
         (if G.contains f.name && memberOK env file G st f then [f.name] else []) ++ keep (compileFn env st f).2 rest
-    let G' := keep { n := n, ok := true } file
+    let G' := (if G.contains dynMarker then [dynMarker] else []) ++ keep { n := n, ok := true } file
     if G'.length == G.length then G else refine env file n k G'
 
 /-- the largest closed set found by the iteration (empty when the file-level conditions fail) -/
 def goodFns (env : Env) (file : AFile) (n : Nat) : List String :=
   if fileOK env file n then refine env file n (file.length + 1) (file.map (·.name)) else []
+
+/-- the largest closed set with trait objects admitted (it carries the flag) -/
+def goodFnsD (env : Env) (file : AFile) (n : Nat) : List String :=
+  if fileOK env file n then refine env file n (file.length + 2) (dynMarker :: file.map (·.name)) else []
+
+/-- the hypothesis on the program's dispatch table under which trait objects are simulated: for every admissible vtable and
+    every method of its trait, `Sem`'s lookup `(trait, tyKey receiver, method)` finds the implementing function under the name
+    the wrapper calls (`trait_impl_fn_name`) -/
+def implsOK (env : Env) (file : AFile) (G : List String) (P : Prog) : Bool :=
+  (dynTable env file G).all fun p =>
+    ((traitMethodSigs env p.1).getD []).all fun s =>
+      match P.impls.find? (fun i => i.1 == p.1 && i.2.1 == Sem.tyKey p.2 && i.2.2.1 == s.1) with
+      | some i => i.2.2.2 == Goml.Mono.traitImplFnName p.1 p.2 s.1
+      | none => false
+
+/-- the fragment with trait objects (under `implsOK`) -/
+def inGoFragmentD (env : Env) (file : AFile) (n : Nat) (f : AFn) : Bool :=
+  let G := goodFnsD env file n
+  closedOKD env file n G && G.contains f.name
 
 /-- **the fragment predicate**: `f` belongs to a set of functions of the file that is closed under
     calls and passes every check (the set is computed by `goodFns`, its closure is re-checked) -/
@@ -965,8 +1065,8 @@ def reasonC (env : Env) (file : AFile) (G : List String) (Γ : Ctx) (K : KCtx) :
         | .enum tn _ _ =>
           if !(goodEnums env).contains tn then "node:enum-field-get(" ++ tyReason env (.enum tn) ++ ")"
           else "node:enum-field-get(variant-not-fixed-by-an-arm)")
-  | .toDyn _ _ _ _ => some "node:to-dyn"
-  | .dynCall _ _ _ _ _ => some "node:dyn-call"
+  | .toDyn tr forTy e ty => if toDynOK env file G Γ tr forTy e ty then none else some "node:to-dyn"
+  | .dynCall tr m recv args ty => if dynCallOK env file G Γ tr m recv args ty then none else some "node:dyn-call"
   | .go e ty => if goOK env file G Γ e ty then none else some "node:go"
   | .proj e idx ty =>
     if fragC env file G Γ K (.proj e idx ty) then none
